@@ -73,6 +73,7 @@ where
 
     let min_shift = read_min_shift(reader)?;
     let depth = read_depth(reader)?;
+    validate_geometry(min_shift, depth)?;
 
     let header = read_aux(reader).map_err(ReadError::InvalidHeader)?;
 
@@ -127,6 +128,21 @@ where
 {
     let n = read_i32_le(reader)?;
     u8::try_from(n).map_err(ReadError::InvalidDepth)
+}
+
+pub(crate) fn validate_geometry(min_shift: u8, depth: u8) -> io::Result<()> {
+    use crate::binning_index::index::reference_sequence::Bin;
+
+    if min_shift == 0 || u32::from(min_shift) + 3 * u32::from(depth) >= usize::BITS {
+        Err(io::Error::new(
+            io::ErrorKind::InvalidData,
+            "invalid min shift",
+        ))
+    } else if depth > Bin::MAX_DEPTH {
+        Err(io::Error::new(io::ErrorKind::InvalidData, "invalid depth"))
+    } else {
+        Ok(())
+    }
 }
 
 fn read_unplaced_unmapped_record_count<R>(reader: &mut R) -> Result<Option<u64>, ReadError>
